@@ -1,7 +1,7 @@
 from mindsdb_sql.parser.ast.base import ASTNode
 from mindsdb_sql.parser.utils import indent
 from mindsdb_sql.parser.ast.create import TableColumn
-from mindsdb_sql.parser.ast.select.identifier import Identifier
+from mindsdb_sql.parser.ast.select.identifier import Identifier, no_wrap_identifier_regex
 from mindsdb_sql.parser.ast.select.constant import Constant
 
 class Insert(ASTNode):
@@ -76,9 +76,19 @@ class Insert(ASTNode):
                   f'{ind})\n'
         return out_str
 
+    @staticmethod
+    def column_to_str(name):
+        # column names are kept as plain strings: a name that is not a plain word has to be back-quoted
+        # (names that still carry their back-quotes, as the MindsDB grammar keeps them, are printed as they are)
+        if not isinstance(name, str):
+            return str(name)
+        if no_wrap_identifier_regex.fullmatch(name) or (len(name) > 2 and name[0] == '`' and name[-1] == '`'):
+            return name
+        return f'`{name}`'
+
     def get_string(self, *args, **kwargs):
         if self.columns is not None:
-            cols = ', '.join([str(i.name) for i in self.columns])
+            cols = ', '.join([self.column_to_str(i.name) for i in self.columns])
             columns_str = f'({cols})'
         else:
             columns_str = ''
